@@ -32,7 +32,7 @@ func init() {
 func c08Families(tier string) []engine.Family {
 	sc := docScope{Nodes: tierPick(tier, 3, 4), UBJTypes: tierPick(tier, 8, 15), JSONTok: 0, JSONAtoms: tierPick(tier, 1, 2), NumStride: tierPick(tier, 9, 1), Ctx: tierPick(tier, 3, 0), ScStride: tierPick(tier, 2, 1)}
 	fams := allDocFamilies(sc, func(x *engine.Exec, c *DocCase) {
-		if c.Ref.Status != model.Complete || c.Fam == "json-structure" || len(c.Doc) > 80 {
+		if c.Ref.Status != model.Complete || c.Fam == "json-structure" || len(c.Doc) > 600 {
 			return
 		}
 		c08Body(x, c.Codec, c.Doc, c.Ref, c.Class)
